@@ -72,7 +72,8 @@ setup.sh                  builds the overlay venv /verif/.venv (/venv site-packa
                           crosshair-tool from /opt/veriftools/wheels); called by bin/check, idempotent, offline
 bin/check                 entry point: check <id> --tier quick|thorough [--replay f] [--only x]
 vlib/core.py              Check (counters, known-finding matching, VIOLATION / KNOWN-FINDING lines, evidence writer),
-                          PlainWorker (persistent /venv/bin/python with the uninstrumented athlib: witness + replay)
+                          PlainWorker (uninstrumented athlib under /venv/bin/python: one long-lived process for witness expressions,
+                          one pristine process that forks a child per replay / clause script), history bisection
 vlib/pool.py  main.py     16-process fork pool of jobs; dispatch to harness/<id>.py
 vlib/relang.py casefold.py  E-RE: sre parse tree -> z3 Re (IGNORECASE included)
 symrun/                   E-SYM: instrumented native symbolic execution of athlib
@@ -85,7 +86,8 @@ symrun/                   E-SYM: instrumented native symbolic execution of athli
   cvc5_backend.py         SMT-LIB text to the cvc5 binary (QF_BVFP, and fallback when z3 says unknown)
   rematch.py templates.py symbolic backtracking matcher over sre parse trees; template generation from them
   dtoa.py shadow.py       '%.Nf' fixed-point contract; shadow int/float/str/max/min/len, %-formatting, table lookups
-  shims/                  re, decimal, datetime/dateutil
+  shims/                  re (match / search / sub on symbolic strings), decimal (+ - * // %), functools (visible memo tables),
+                          datetime/dateutil
 jsrun/                    E-JS: estree.js (node's acorn), interp.py (interpreter over the symrun values),
                           nodecall.js + nodeclient.py (the real node, for witnesses and replays)
 harness/Cxx.py hj*.py hc.py   one file per property; hc.Runner = explore + witness validation + counterexample replay
